@@ -16,7 +16,7 @@ def units():
                                "&& psf->write_current == __CPROVER_loop_entry (psf->write_current) && psf->norm_double == __CPROVER_loop_entry (psf->norm_double) "
                                + (" && ((0 <= g_n && g_n < gc.delivered) ==> max_val >= __CPROVER_fabs (g_val))" if withmax else ""),
                  "decreases": "gc.remaining + (readcount > 0 ? 1 : 0)"}
-        U.append({"name": "command.psf_calc_signal_max.ch%d%s" % (ch, "" if withmax else ".state"), "props": ["C18", "C17", "C09", "C19"], "harness": "command_calc.harness.c",
+        U.append({"name": "command.psf_calc_signal_max.ch%d%s" % (ch, "" if withmax else ".state"), "props": ["C18", "C17", "C09"], "harness": "command_calc.harness.c",
                   "entry": "h_calc_signal_max", "enforce": "psf_calc_signal_max", "function": "command.c:psf_calc_signal_max",
                   "replace": ["sf_command", "sf_seek", "sf_read_double"], "defines": ["-DCH=%d" % ch] + ([] if withmax else ["-DNO_MAX_CLAUSE"]),
                   "loops": {"psf_calc_signal_max": [inner, outer]}, "timeout": 900,
